@@ -7875,3 +7875,120 @@ func rulePresentValueNotNil(r *Run) {
 	}
 	r.check(n >= 4, "badger:value-copies", fmt.Sprintf("%d", n), "too few: rule needs review", "-")
 }
+
+// ---------------------------------------------------------------------------------------------
+// R6.20 — the fields of a composed key occupy disjoint byte regions
+
+func init() {
+	register(ruleDef{ID: "R6.20", Prop: "C06", Tier: "quick", Floor: 1,
+		Title: "the fields of a composed key or header occupy disjoint byte regions: where one function writes two constant sub-ranges b[i:j] of the same byte buffer (copy or binary Put*) and one write can follow the other, the two ranges do not overlap, and two such writes never start at the same computed offset — an instance id overwritten by the version id makes the keys of different data instances equal (e.g. the key of the process-wide label-index cache)",
+		Fn:    ruleKeyFieldsDisjoint})
+}
+
+func ruleKeyFieldsDisjoint(r *Run) {
+	w := r.W
+	type region struct {
+		lo, hi int64
+		at     ssa.Instruction
+	}
+	type symRegion struct {
+		low ssa.Value
+		at  ssa.Instruction
+	}
+	nFuncs, nPairs, nSym := 0, 0, 0
+	for _, f := range w.RepoFuncs {
+		if len(f.Blocks) == 0 || isTestFunc(w, f) {
+			continue
+		}
+		byBase := map[ssa.Value][]region{}
+		symbolic := map[ssa.Value][]symRegion{}
+		var order []ssa.Value
+		for _, c := range calls(f) {
+			cc := c.Common()
+			var dst ssa.Value
+			if bi, ok := cc.Value.(*ssa.Builtin); ok && bi.Name() == "copy" && len(cc.Args) == 2 {
+				dst = cc.Args[0]
+			} else if name := methodNameOf(c); (name == "PutUint16" || name == "PutUint32" || name == "PutUint64") && len(cc.Args) >= 2 {
+				dst = cc.Args[len(cc.Args)-2]
+			}
+			if dst == nil {
+				continue
+			}
+			sl, ok := dst.(*ssa.Slice)
+			if !ok || sl.Low == nil || sl.High == nil {
+				if ok && sl.Low == nil && sl.High != nil {
+					if hi, ok2 := constInt(sl.High); ok2 {
+						if _, seen := byBase[sl.X]; !seen {
+							order = append(order, sl.X)
+						}
+						byBase[sl.X] = append(byBase[sl.X], region{0, hi, c})
+					}
+				}
+				continue
+			}
+			lo, ok1 := constInt(sl.Low)
+			hi, ok2 := constInt(sl.High)
+			if !ok1 || !ok2 {
+				// a computed offset: two writes that start at the very same computed value overlap for certain
+				if !ok1 {
+					for _, o := range symbolic[sl.X] {
+						if o.low == sl.Low && o.at != ssa.Instruction(c) {
+							// the same value of the offset: the path does not pass its definition again
+							redefined := func(x ssa.Instruction) bool {
+								d, ok := sl.Low.(ssa.Instruction)
+								return ok && x == d
+							}
+							if findPath(f, o.at, redefined, func(x ssa.Instruction) bool { return x == ssa.Instruction(c) }, nil) != nil {
+								r.violation(fmt.Sprintf("%s:same-computed-offset", fname(f)),
+									"two fields are written, one after the other, to ranges of one buffer that start at the same computed offset: the later field overwrites the earlier one (e.g. the client id written over the version id of a stored key: distinct versions collapse onto one key)", w.pos(c.Pos()))
+							}
+						}
+					}
+					symbolic[sl.X] = append(symbolic[sl.X], symRegion{sl.Low, c})
+					nSym++
+				}
+				continue
+			}
+			if _, seen := byBase[sl.X]; !seen {
+				order = append(order, sl.X)
+			}
+			byBase[sl.X] = append(byBase[sl.X], region{lo, hi, c})
+		}
+		counted := false
+		for _, base := range order {
+			regs := byBase[base]
+			if len(regs) < 2 {
+				continue
+			}
+			if !counted {
+				nFuncs++
+				counted = true
+			}
+			for i := 0; i < len(regs); i++ {
+				for j := i + 1; j < len(regs); j++ {
+					a, b := regs[i], regs[j]
+					nPairs++
+					lo, hi := a.lo, a.hi
+					if b.lo > lo {
+						lo = b.lo
+					}
+					if b.hi < hi {
+						hi = b.hi
+					}
+					if lo >= hi {
+						continue
+					}
+					// both writes in one run?
+					seq := findPath(f, a.at, nil, func(x ssa.Instruction) bool { return x == b.at }, nil) != nil ||
+						findPath(f, b.at, nil, func(x ssa.Instruction) bool { return x == a.at }, nil) != nil
+					if !seq {
+						continue
+					}
+					r.violation(fmt.Sprintf("%s:[%d:%d]-and-[%d:%d]", fname(f), a.lo, a.hi, b.lo, b.hi),
+						fmt.Sprintf("two fields are written to overlapping byte ranges [%d:%d] and [%d:%d] of one buffer, one after the other: the later field overwrites the earlier one — when the overwritten field is the data instance's id, different instances get equal keys and read each other's entries", a.lo, a.hi, b.lo, b.hi), w.pos(b.at.Pos()))
+				}
+			}
+		}
+	}
+	r.check(nFuncs >= 6, "repo:composed-buffers", fmt.Sprintf("%d functions, %d pairs of constant regions compared, %d writes at computed offsets", nFuncs, nPairs, nSym), "too few: rule needs review", "-")
+}
